@@ -495,3 +495,27 @@ def deep_net(rng: random.Random, depth: int, n_in: int = 3, types=None, unary=('
     if depth > 2 and rng.random() < 0.5:
         outs.append(links[depth // 2])
     return Net(ins, outs, g)
+
+
+def mark_up(c, rng, n_blocks=None):
+    """Give a circuit block markup the way a user (or a generator) does: one to three named blocks over random gate
+    subsets, outputs a subset of the members, inputs left to the library or given explicitly.  Returns the block names.
+    Blocks are part of a circuit's state: whoever promises not to modify a circuit promises it for the block table too."""
+    labels = [l for l, g in c.gates.items() if g.gate_type.name != 'INPUT']
+    names = []
+    if not labels:
+        return names
+    for k in range(n_blocks or rng.randint(1, 3)):
+        gs = rng.sample(labels, rng.randint(1, min(len(labels), 5)))
+        outs = rng.sample(gs, rng.randint(1, len(gs)))
+        nm = 'blk%d' % k
+        try:
+            if rng.random() < 0.3:
+                ins = sorted({o for g in gs for o in c.get_gate(g).operands if o not in gs})
+                c.make_block(nm, gs, outs, ins)
+            else:
+                c.make_block(nm, gs, outs)
+            names.append(nm)
+        except Exception:
+            pass
+    return names
